@@ -202,7 +202,7 @@ class Layout(object):
 
 
 def gen_layout(rng, cc2=None, nnull=None, nctl=None, old_len=None, align=None, filler=None, trailing=None,
-               uid0=None, min_capacity=0, gap=None, near_end=False, adjacent=None, attempts=None):
+               uid0=None, min_capacity=0, gap=None, near_end=False, adjacent=None, attempts=None, end_zone=None):
     """a random well-formed layout (see module doc).  Reserved ranges never touch the prefix TLVs nor the first
     four bytes of the NDEF Message TLV (its T byte and the up to three L bytes), except with
 
@@ -211,11 +211,17 @@ def gen_layout(rng, cc2=None, nnull=None, nctl=None, old_len=None, align=None, f
     bytes (1-byte length), at ndef_off + 4 with a stored message of 255 or more bytes (3-byte length).  The range lies
     on value bytes only (the value continues behind it), never on the T or L bytes of the TLV that is present.  A
     writer that stores 255 or more bytes on an `adjacent = 2` layout would have to put L bytes on reserved bytes:
-    see length_field_on_reserved()."""
+    see length_field_on_reserved().
+
+    end_zone = 16 | 8 | 4 | True (one of them): the first control TLV declares a range that starts within the last
+    16 / 8 / 4 bytes of the data area: ending exactly at the end of the data area, starting exactly at end - zone,
+    somewhere inside the zone, or starting in the zone and running across the end (tags end-zone-16/-8/-4 by the
+    distance of the first byte from the end, end-zone-ends-at-end, end-zone-starts-at-end-16, end-zone-crosses-end)."""
     if adjacent is True:
         adjacent = rng.choice([2, 2, 4])
     for _attempt in range(attempts or (400 if adjacent else 200)):
-        lay = _gen_once(rng, cc2, nnull, nctl, old_len, align, filler, trailing, uid0, gap, near_end, adjacent)
+        lay = _gen_once(rng, cc2, nnull, nctl, old_len, align, filler, trailing, uid0, gap, near_end, adjacent,
+                        end_zone)
         if lay is not None and lay.capacity >= min_capacity:
             chk = ref_read(lay.mem)
             assert chk.status == "ndef" and chk.ndef_off == lay.ndef_off and chk.message == lay.old and \
@@ -233,7 +239,33 @@ def length_field_on_reserved(ndef_off, reserved, n):
     return any(a in reserved for a in field)
 
 
-def _gen_once(rng, cc2, nnull, nctl, old_len, align, filler, trailing, uid0, gap, near_end, adjacent=None):
+def end_zone_classes(ref):
+    """classes of declared (lock-control / memory-control) ranges that cover bytes of the LAST 16 bytes of the data
+    area, from a RefResult: "16" | "8" | "4" (distance of the first covered byte of the zone from the end of the data
+    area: 9..16, 5..8, 1..4), "ends_at_end", "starts_at_end_16", "crosses_end", "from_below" (starts in front of
+    the zone and reaches into it)"""
+    out = set()
+    end = ref.data_end
+    if end is None:
+        return out
+    for (_t, _pos, start, n) in ref.ctrl:
+        if n <= 0 or start >= end or start + n <= end - 16:
+            continue
+        d = end - max(start, end - 16)
+        out.add("16" if d > 8 else "8" if d > 4 else "4")
+        if start + n == end:
+            out.add("ends_at_end")
+        if start == end - 16:
+            out.add("starts_at_end_16")
+        if start + n > end:
+            out.add("crosses_end")
+        if start < end - 16:
+            out.add("from_below")
+    return out
+
+
+def _gen_once(rng, cc2, nnull, nctl, old_len, align, filler, trailing, uid0, gap, near_end, adjacent=None,
+              end_zone=None):
     lay = Layout()
     if adjacent == 4 and cc2 is None:
         cc2 = rng.choice([c for c in CC2_CHOICES if c >= 34] + [rng.randrange(40, 256)])
@@ -248,7 +280,7 @@ def _gen_once(rng, cc2, nnull, nctl, old_len, align, filler, trailing, uid0, gap
         nlock, nmem = rng.choice([(0, 0), (0, 0), (1, 0), (0, 1), (1, 1), (2, 0), (0, 2), (2, 1), (1, 2), (2, 2)])
     else:
         nlock, nmem = nctl
-    if adjacent and not (nlock + nmem):
+    if (adjacent or end_zone) and not (nlock + nmem):
         nlock, nmem = rng.choice([(1, 0), (0, 1)])
     kinds = ["null"] * nnull + ["lock"] * nlock + ["mem"] * nmem
     rng.shuffle(kinds)
@@ -258,7 +290,7 @@ def _gen_once(rng, cc2, nnull, nctl, old_len, align, filler, trailing, uid0, gap
     # gap: bytes directly after the last control TLV of the prefix that this TLV announces as reserved
     if gap is None:
         gap = rng.choice([0, 0, 0, 1, 2, 3, 5]) if (nlock + nmem) else 0
-    if not (nlock + nmem) or (adjacent and nlock + nmem < 2):
+    if not (nlock + nmem) or ((adjacent or end_zone) and nlock + nmem < 2):
         gap = 0
     if gap:
         # the announcing TLV must be the last prefix element, so that every later TLV starts after the gap
@@ -348,6 +380,30 @@ def _gen_once(rng, cc2, nnull, nctl, old_len, align, filler, trailing, uid0, gap
             if not encodings(start) or start >= data_end:
                 return None
             placed = (start, "adjacent-len%d" % (adjacent - 1))
+        elif end_zone and seen_ctl == (2 if adjacent else 1):
+            z = end_zone if end_zone in (16, 8, 4) else rng.choice([16, 8, 4])
+            how = rng.choice(["ends-at-end", "ends-at-end", "starts-at-zone", "within", "within", "crosses-end"])
+            dist = rng.randrange({16: 9, 8: 5, 4: 1}[z], z + 1)      # first declared byte lies `dist` bytes before the end
+            if how == "starts-at-zone":
+                dist = z
+            start = data_end - dist
+            if how == "ends-at-end":
+                nbytes = dist
+            elif how == "crosses-end":
+                nbytes = dist + rng.choice([1, 2, 4, 8])
+            else:
+                nbytes = rng.randrange(1, dist + 1)
+            size_field = nbytes * 8 - rng.randrange(8) if k == "lock" else nbytes
+            if not encodings(start) or set(range(start, start + nbytes)) & protected:
+                return None
+            d = data_end - start
+            placed = (start, "end-zone-%d" % (16 if d > 8 else 8 if d > 4 else 4))
+            if start + nbytes == data_end:
+                lay.tags.add("end-zone-ends-at-end")
+            elif start + nbytes > data_end:
+                lay.tags.add("end-zone-crosses-end")
+            if d == 16:
+                lay.tags.add("end-zone-starts-at-end-16")
         else:
             for _try in range(30):
                 cls = rng.choice(["head", "inside", "inside", "inside", "tail", "cross-end", "beyond", "beyond"])
